@@ -101,6 +101,18 @@ def main(rep):
             found = found or f2
             validated += v2
             rep.cov["handler_wait_histories"] = len(wcases)
+        # "its descriptor is closed afterwards": the loop closes the descriptor of every notification (checked above with
+        # scripted handlers); the REAL handlers only borrow it - after executions of editors (ELF images, scripts, damaged
+        # images), of other programs and after writes the descriptor is still open when the handler returns
+        if not found:
+            import check_C07 as c7
+            import random as _r
+            rng7 = _r.Random(rep.seed + 17)
+            ecases = [("fd%d" % i, c7.gen_attr_case(rng7), {}) for i in range(60 if rep.tier == "quick" else 800)]
+            f3, v3 = wk.run_cases(rep, exe_impl, exe_model, ecases, ["event_fd_kept", "fault_reported"], what="descriptor")
+            found = found or f3
+            validated += v3
+            rep.cov["handler_descriptor_histories"] = len(ecases)
         rep.cov["traces_validated_against_impl"] = validated
         for p in problems:
             rep.notes.append(p)
@@ -113,7 +125,7 @@ def main(rep):
     rep.cov["input_distribution"] = {"scripts of up to %d slots over %d slot kinds" % (depth, len(names)): len(cases)}
     rep.cov["rule"] = ("all scripts of up to %d slots over {exec, write, write by process id 0, write by the daemon itself, both bits, neither bit, overflow marker, bad version, short read, "
                        "failed read, poll error, POLLHUP, wake-up without event, failing exec / write / timeout handler}, pauses from {0,3,-1,2147483,2147484,5000000}, "
-                       "on the real main() with poll/read/close and the handler entry points scripted; the monitor recomputes the required actions slot by slot" % depth)
+                       "on the real main() with poll/read/close and the handler entry points scripted; the monitor recomputes the required actions slot by slot; %d reload histories with the real handler (every pass answers what the queue on disk and the debounce in force prescribe); %d exec / write histories with the real handler: the notification's descriptor is still open when the handler returns" % (depth, rep.cov.get("handler_wait_histories", 0), rep.cov.get("handler_descriptor_histories", 0)))
     rep.cov["samples"] = [cases[20][1].split("\n")[-5:]]
     vlib.conclude_proofs(rep, found)
 
